@@ -3,6 +3,7 @@
 manifest stays valid and current)."""
 import json, subprocess
 
+T = "Trusted: the API-server double (simapi), the kubelet/scheduler/GC model, the reference oracles (DESIGN.md section 3), the clock pass on the build copy; "
 CHECKS = {
  "C01": ("exploration", "runtime monitors over invocation records (simulated API server, real reconcilers) + differential oracle on FilterAndMapPodsByNode",
    "Seeded hostile histories (duplicate pods by hand, Failed/Unknown/terminating/unscheduled pods, node taint/relabel/removal, canaries) in arbitrary fair reconcile orders; every pod create/delete of every replica-set sync is judged against the cluster state that sync read (eligibility, node free, once per node, duplicate resolution, ineligible clean-up, Unknown untouched); plus 20k generated layouts through the real FilterAndMapPodsByNode and a CheckNodeFitness differential. Held = no rule fired on the invocations observed, antecedent floors reached.",
